@@ -24,6 +24,7 @@ type Step struct {
 type FileSpec struct {
 	Route string `json:"route"` // diff (real `atlas migrate diff`) | hand (hand-written equivalent SQL)
 	Steps []Step `json:"steps"`
+	Pad   int    `json:"pad,omitempty"` // hand route: number of `SELECT 1` statements around the real ones (long files take other code paths in the loader)
 }
 
 type Case struct {
@@ -250,6 +251,7 @@ type FileInfo struct {
 	Rebuild     bool
 	Route       string
 	Kinds       []string
+	Padded      bool
 }
 
 type Outcome struct {
@@ -331,7 +333,19 @@ func checkCase(c Case) (Outcome, error) {
 				}
 			}
 		} else {
-			sb.WriteFile("m/"+name, strings.Join(stmts, ";\n")+";\n")
+			padded := stmts
+			if f.Pad > 0 {
+				padded = nil
+				for k := 0; k < f.Pad/2; k++ {
+					padded = append(padded, "SELECT 1")
+				}
+				padded = append(padded, stmts...)
+				for k := f.Pad / 2; k < f.Pad; k++ {
+					padded = append(padded, "SELECT 1")
+				}
+				info.Padded = true
+			}
+			sb.WriteFile("m/"+name, strings.Join(padded, ";\n")+";\n")
 		}
 		if err := rehash(); err != nil {
 			return out, err
@@ -341,15 +355,19 @@ func checkCase(c Case) (Outcome, error) {
 		info.Rebuild = strings.Contains(string(b), "`new_")
 		out.Files = append(out.Files, info)
 	}
-	// lint every window
-	for n := 1; n <= len(out.Files); n++ {
+	// lint every window, the last one covering the whole directory (the init file included, so that the loader starts
+	// from an empty base)
+	initText, _ := os.ReadFile(sb.Path("m", "100_init.sql"))
+	texts["100_init.sql"] = string(initText)
+	all := append([]FileInfo{{Name: "100_init.sql", Route: "hand", Kinds: []string{"init"}}}, out.Files...)
+	for n := 1; n <= len(all); n++ {
 		out.Windows++
 		r := sb.Run("migrate", "lint", "--dir", "file://m", "--dev-url", dev, "--latest", fmt.Sprint(n), "--format", "{{ json . }}")
 		var lj lintJSON
 		if err := json.Unmarshal([]byte(r.Stdout), &lj); err != nil {
 			return out, fmt.Errorf("lint --latest %d: output is not JSON: %v", n, r)
 		}
-		window := out.Files[len(out.Files)-n:]
+		window := all[len(all)-n:]
 		anyDestructive := false
 		for _, fi := range window {
 			if len(fi.Wants) > 0 {
